@@ -83,7 +83,15 @@ func H_trunc() {
 	frame, in, o := hMakeFrame()
 	fi := refFrame(frame, true)
 	vfAssume(fi.ok)
-	cut := 1 + vfChoice("cut", len(frame)-1) // 1 .. len-1
+	var cut int
+	if vfParam("cutsel") == 0 {
+		cut = 1 + vfChoice("cut", len(frame)-1) // 1 .. len-1
+	} else {
+		// large frames: every structural boundary (after the header, after each block-size word,
+		// after each block's data, after each block checksum, after the end mark) plus and minus three
+		cands := hCutCandidates(frame, o)
+		cut = cands[vfChoice("cut", len(cands))]
+	}
 	onBoundary := false
 	if o.legacy != 0 {
 		// legacy frames have no end mark: a cut on a block boundary is a complete (shorter) frame
@@ -109,6 +117,46 @@ func H_trunc() {
 		vfAssert("trunc-error-does-not-wrap-eof", !errors.Is(err, io.EOF))
 	}
 	vfReach("end")
+}
+
+// hCutCandidates lists the cut positions 1..len-1 within three bytes of a structural boundary of
+// a well-formed modern frame (walked with the reference model's field sizes, not the library's).
+func hCutCandidates(frame []byte, o hOpts) []int {
+	var bounds []int
+	p := 7
+	if o.sizeopt != 0 {
+		p += 8
+	}
+	bounds = append(bounds, 4, p)
+	for p+4 <= len(frame) {
+		w := refLE32at(frame, p)
+		p += 4
+		bounds = append(bounds, p)
+		if w == 0 {
+			break
+		}
+		p += int(w & 0x7FFFFFFF)
+		bounds = append(bounds, p)
+		if o.bc != 0 {
+			p += 4
+			bounds = append(bounds, p)
+		}
+	}
+	var out []int
+	for _, b := range bounds {
+		for c := b - 3; c <= b+3; c++ {
+			dup := false
+			for _, x := range out {
+				if x == c {
+					dup = true
+				}
+			}
+			if c >= 1 && c <= len(frame)-1 && !dup {
+				out = append(out, c)
+			}
+		}
+	}
+	return out
 }
 
 func hBlockLen(o hOpts) int {
